@@ -712,7 +712,7 @@ func checkC09WalkDown(c *Ctx) {
 // ---- C07.undo-keeps-start
 func checkC07UndoKeepsStart(c *Ctx) {
 	p, r := c.P, c.R
-	r.Rule("C07.undo-keeps-start", "K3", "the first undo of a series (undo position 0) records the text it starts from when that text is not the newest saved state — typed characters are never saved by self-insert — so that as many redos as undos come back to it", 1)
+	r.Rule("C07.undo-keeps-start", "K3", "before stepping back, Undo records the text the line holds when it is not the state the line sits on (the newest one, or the one undone to) — typed characters are never saved by self-insert: the text is appended to the states up to and including that one (the steps undone before are dropped), so that as many redos as undos come back to it and an edit made after an undo discards the undone steps", 1)
 	U := p.Func("(*history.Sources).Undo")
 	if U == nil {
 		r.Unk("C07.undo-keeps-start", "(*history.Sources).Undo", "-", "anchor not found")
@@ -720,7 +720,8 @@ func checkC07UndoKeepsStart(c *Ctx) {
 	}
 	r.Fn(fnName(U))
 	bf := blockFacts(U)
-	found := false
+	found, cuts, underDiff := false, false, false
+	var at ssa.Instruction
 	eachInstr(U, func(in ssa.Instruction) {
 		st, ok := isFieldStore(in, lhT, "items")
 		if !ok {
@@ -733,22 +734,28 @@ func checkC07UndoKeepsStart(c *Ctx) {
 		if b, isB := cl.Call.Value.(*ssa.Builtin); !isB || b.Name() != "append" {
 			return
 		}
-		// appended under pos == 0
-		atStart := false
+		found = true
+		at = in
+		// appended to a cut of the states: items[:last+1]
+		if sl, isSl := cl.Call.Args[0].(*ssa.Slice); isSl && sl.Low == nil && sl.High != nil && isFieldLoad(sl.X, lhT, "items") {
+			cuts = true
+		}
+		// under a comparison of two strings that differ (the state's text and the line's)
 		for fc := range factsAt(bf, in) {
 			rel, isR := relOf(fc.Cond, fc.Val)
-			if !isR || !isFieldLoad(rel.X, lhT, "pos") {
+			if !isR || rel.Op != token.NEQ {
 				continue
 			}
-			if k, isK := constInt(rel.Y); isK && ((rel.Op == token.EQL && k == 0) || (rel.Op == token.LSS && k == 1) || (rel.Op == token.LEQ && k == 0)) {
-				atStart = true
+			if b, isB := rel.X.Type().Underlying().(*types.Basic); isB && b.Kind() == types.String {
+				underDiff = true
 			}
 		}
-		if atStart {
-			found = true
-		}
 	})
-	r.Check(found, "C07.undo-keeps-start", fnName(U)+":records-start", p.Pos(U.Pos()), "appends the current text under pos == 0", "Undo never records the text it starts from: after typing (which is not saved) undo cannot be reversed by redo, the typed text is gone")
+	pos := p.Pos(U.Pos())
+	if at != nil {
+		pos = p.IPos(at)
+	}
+	r.Check(found && cuts && underDiff, "C07.undo-keeps-start", fnName(U)+":records-start", pos, "appends the current text to a cut of the states, where it differs from the state the line sits on", fmt.Sprintf("Undo does not record the unsaved text it starts from in place of the undone steps (appends: %v, to a cut of the states: %v, under a text comparison: %v): after typing, undo cannot be reversed by redo, or a state undone before resurfaces", found, cuts, underDiff))
 }
 
 // ---- C19.prefix-char-plain
